@@ -367,6 +367,69 @@ def oracle_reset(case, ctx):
     ctx.ev.case(case, nt=varied, classes=['reset:' + fn] + (['resets_differ'] if varied else []))
 
 
+# ------------------------------------------------------------------ (3b) transition and observation functions: the generator passed in, and nothing else
+
+
+@st.composite
+def strat_components(draw, tier):
+    from vgv import gen
+    space = draw(gen.space_s(must=('Floor', 'Telepod', 'MovingObstacle')))
+    sd = draw(gen.state_s(space, min_hw=2, max_hw=6, valid=True, floor_weight=2))
+    h, w = M.shape(sd)
+    if draw(st.booleans()):
+        # by construction: the agent on a telepod with two or three same-coloured partners (several destinations to choose from)
+        col = draw(st.sampled_from(space['colors']))
+        cells = [(y, x) for y in range(h) for x in range(w) if (y, x) != (sd['agent'][0], sd['agent'][1])]
+        k = min(len(cells), draw(st.integers(2, 3)))
+        for (y, x) in draw(st.lists(st.sampled_from(cells), min_size=k, max_size=k, unique=True)) if cells else []:
+            sd['grid'][y][x] = f'T:{col}'
+        sd['grid'][sd['agent'][0]][sd['agent'][1]] = f'T:{col}'
+    chain = draw(gen.chain_s(M.TRANSITIONS))
+    for need in ('teleport', 'move_obstacles'):
+        if need not in chain and draw(st.booleans()):
+            chain = chain + [need]
+    return {'space': space, 'state': sd, 'chain': chain, 'action': draw(gen.action_s), 'seed': draw(st.integers(0, 2**31)),
+            'obs': draw(st.sampled_from(['stochastic_raytracing', 'raytracing', 'partially_occluded', 'fully_transparent'])),
+            'lib': draw(st.lists(st.integers(0, 10**6), min_size=2, max_size=2, unique=True))}
+
+
+def oracle_components(case, ctx):
+    """a transition chain and an observation function, given a seeded generator: the same result whatever the global generators
+    hold, and the globals (numpy's legacy generator, `random`, the library's own default generator) are left exactly as they were"""
+    from vgv import obsutil
+    from gym_gridverse.envs.transition_functions import transition_with_copy
+    from gym_gridverse.rng import make_rng
+    sd = case['state']
+    fn = envs.mk_transition(case['chain'])
+    outs = []
+    for lib in case['lib']:
+        reset_gv_rng(lib)
+        np.random.seed(lib % 2**32)
+        random.seed(lib)
+        rng = make_rng(case['seed'])
+        before = snap()
+        s = objs.build_state(sd)
+        res = []
+        for _ in range(3):
+            s = transition_with_copy(fn, s, objs.action(case['action']), rng=rng)
+            res.append(objs.canon_state(s))
+        res.append(obsutil.observe(case['obs'], objs.build_state(sd), [[-3, 0], [-2, 2]], case['seed']))
+        after = snap()
+        for nm, b, a in zip(('library generator', 'numpy.random', 'random'), before, after):
+            if a != b:
+                ctx.fail(f'chain {case["chain"]} / observation {case["obs"]} given a seeded generator changed the state of the global {nm} (action {case["action"]}, agent {sd["agent"]})',
+                         {'kind': 'global_rng', 'which': nm})
+        outs.append(res)
+    if outs[0] != outs[1]:
+        k = next(i for i, (a, b) in enumerate(zip(*outs)) if a != b)
+        ctx.fail(f'chain {case["chain"]} with the same seeded generator gives different results (entry {k}: 0-2 steps, 3 observation) when the global generators were seeded {case["lib"][0]} vs {case["lib"][1]}',
+                 {'kind': 'same_process'})
+    d = sd
+    partners = len(M.telepod_partners(d)) if M.obj_type(M.cell(d, (d['agent'][0], d['agent'][1]))) == 'Telepod' and 'teleport' in case['chain'] else 0
+    moved = outs[0][0] != sd
+    ctx.ev.case(case, nt=moved, classes=['obs:' + case['obs']] + (['teleport_choice>=2'] if partners >= 2 else []) + (['obstacles_move'] if 'move_obstacles' in case['chain'] and M.find(sd, lambda o: o == 'M') else []))
+
+
 # ------------------------------------------------------------------ (4) reset functions through the Python API, across interpreters
 
 
@@ -441,6 +504,9 @@ CHECKS = [
     Check('reset_functions', oracle_reset, strategy=strat_reset, examples={'quick': 800, 'thorough': 3000}, shards={'quick': 4, 'thorough': 16},
           rule='8 reset functions x parameters (as in C13, beyond the shipped ones) x seeds x 1-6 resets, run twice with differently seeded global generators: identical states, globals untouched',
           required=['reset:empty', 'reset:memory_rooms', 'resets_differ']),
+    Check('components_rng', oracle_components, strategy=strat_components, examples={'quick': 300, 'thorough': 1200}, shards={'quick': 2, 'thorough': 16},
+          rule='generated state (agent on a telepod with 2-3 same-coloured partners in half of the cases; obstacles) x chain x action x observation function with a seeded generator, run twice under differently seeded global generators: identical results, globals untouched',
+          required=['teleport_choice>=2', 'obstacles_move', 'obs:stochastic_raytracing']),
     Check('cross_process_reset_functions', oracle_reset_x, strategy=strat_reset_x, examples={'quick': 60, 'thorough': 200}, shards={'quick': 4, 'thorough': 16},
           rule='reset functions called through the Python API (colours passed as a set) x parameters (as in C13) x seeds x 1-4 states from one generator: identical in worker interpreters with other PYTHONHASHSEED values',
           required=['reset:memory', 'reset:memory_rooms', 'colour_set>=3']),
